@@ -31,6 +31,19 @@ ParseOk(r) ==
             \* classification only (the line is still a MISMATCH): the value is the denoted one with member names cut at a NUL
             \/ (r.got.val = G!CutNames(d.v) /\ PrintT(<<"NAMENUL", l>>) /\ FALSE)
 
+\* the convenience doors (json_tokener_parse_verbose / json_tokener_parse: a fresh default parser, depth 32, the text up to
+\* its NUL): a value exactly with status success, both doors alike, the denoted value for a valid text within the limit,
+\* "nesting too deep" beyond it; every status has a message, values outside the enumeration the fixed one
+ConvOk(r) ==
+    LET d == G!Denote(r.text) IN
+    /\ (r.st # "success" => ~r.has) /\ r.plain_same /\ r.plain_has = r.has       \* (the document null is no pointer at all)
+    /\ r.desc_ok /\ r.desc_unknown_ok
+    /\ IF ~d.ok THEN PrintT(<<"GEN", l>>)
+       ELSE IF G!MaxDepthOf(d) > 31 THEN r.st = "depth"
+       ELSE /\ r.st = "success"
+            /\ \/ r.val = d.v
+               \/ (r.val = G!CutNames(d.v) /\ PrintT(<<"NAMENUL", l>>) /\ FALSE)     \* classification only, as in ParseOk
+
 DepthOk(r) ==
     LET d == G!Denote(r.text)
         D == r.depth IN
@@ -81,7 +94,7 @@ InjectOk(r) ==
                /\ r.deflt.end >= Len(r.equiv) /\ r.deflt.end <= NextNonSpace(r.text, Len(r.equiv))
 
 StepOfImpl(s, r) ==
-    [ok |-> CASE r.e = "parse" -> ParseOk(r)
+    [ok |-> CASE r.e = "parse" -> ParseOk(r) [] r.e = "conv" -> ConvOk(r)
               [] r.e = "depth" -> DepthOk(r) [] r.e = "depthfd" -> DepthFdOk(r) [] r.e = "depthalt" -> DepthAltOk(r)
               [] r.e = "hostile" -> HostileOk(r)
               [] r.e = "newex" -> r.refused
